@@ -2,6 +2,7 @@ package metric
 
 import (
 	"context"
+	"fmt"
 	"runtime"
 	"strconv"
 	"strings"
@@ -9,6 +10,8 @@ import (
 	"sync/atomic"
 	"testing"
 	"time"
+
+	"go.opentelemetry.io/otel/sdk/metric/metricdata"
 )
 
 // TestVerifC02Conc: free-running concurrent histories (run with -race).
@@ -21,6 +24,9 @@ import (
 // record = "<collector id>:<reader>:<ok|err>;<streams>"; records of one collector are in its program order;
 // collector ids: 0..nr-1 = the reader's own collector / export sequence, 100+k = extra collectors,
 // 1000+r = the final collect of reader r (after every Add has returned).
+// After MeterProvider.Shutdown returned, one token per periodic reader:
+//   X:<reader>:<max Export calls in flight>:<Export calls started after Shutdown returned>:<started>:<returned>:<Collect after Shutdown ok|err>
+// (the ghost counters of the fine-grained reader LTS, Otel/C02/ReaderLts.lean).
 func TestVerifC02Conc(t *testing.T) {
 	out := vOpen(t)
 	defer out.Close()
@@ -28,6 +34,10 @@ func TestVerifC02Conc(t *testing.T) {
 	c02InstallErrHandler(t)
 
 	run := func(gen string, cfg c02Cfg, G, rep, A, extra int, seed uint64) {
+		// "+ex": exemplar filter always-on, so every Add also goes through Offer and every collection through
+		// collectExemplars of the default reservoirs, under the race detector; the values must be what they are without
+		// (exemplars_do_not_change_values), so the line is judged exactly as the others
+		cfg.exOn = strings.HasSuffix(gen, "+ex")
 		s := c02New(cfg)
 		defer s.close()
 		ctx := context.Background()
@@ -111,8 +121,30 @@ func TestVerifC02Conc(t *testing.T) {
 		}
 		s.mu.Unlock()
 		_ = s.mp.Shutdown(ctx)
+		// Shutdown has returned: whatever is tried now (a stale tick, ForceFlush, Collect, a second Shutdown) must not
+		// reach the exporter (reader_no_export_after_shutdown) and Collect must answer with an error
+		var xs []string
+		for r, e := range s.exps {
+			if e == nil {
+				continue
+			}
+			e.shutRet.Store(true)
+			select {
+			case s.ticks[r] <- time.Now():
+			case <-time.After(200 * time.Microsecond):
+			}
+			_ = s.readers[r].(*PeriodicReader).ForceFlush(ctx)
+			var rm metricdata.ResourceMetrics
+			after := "ok"
+			if err := s.readers[r].Collect(ctx, &rm); err != nil {
+				after = "err"
+			}
+			_ = s.readers[r].Shutdown(ctx)
+			runtime.Gosched()
+			xs = append(xs, fmt.Sprintf("X:%d:%d:%d:%d:%d:%s", r, e.maxIn.Load(), e.late.Load(), e.begun.Load(), e.ended.Load(), after))
+		}
 		s.mu.Lock()
-		recs := strings.Join(s.recs, " ")
+		recs := strings.Join(append(append([]string{}, s.recs...), xs...), " ")
 		s.stamp = -1
 		s.stamps = map[int]int{}
 		s.mu.Unlock()
@@ -159,6 +191,10 @@ func TestVerifC02Conc(t *testing.T) {
 		}
 		cfg := c02ParseCfg(strings.Join(rs, ","), strings.Join(is, ","))
 		G := 2 + r.Intn(15)
-		run("rnd", cfg, G, 1+r.Intn(7), 1+r.Intn(3), r.Intn(2), r.U64())
+		gen := "rnd"
+		if i%3 == 1 {
+			gen = "rnd+ex"
+		}
+		run(gen, cfg, G, 1+r.Intn(7), 1+r.Intn(3), r.Intn(2), r.U64())
 	}
 }
